@@ -111,6 +111,10 @@ def _create_files(  # noqa: C901, PLR0912, PLR0913
         if links is None and isinstance(storage_obj, ObjectStorage):
             links = storage_obj.odb.cache_types
 
+        # only copying creates missing parent directories, links do not
+        for parent in {fs.parent(dest_path) for dest_path in dest_paths}:
+            fs.makedirs(parent, exist_ok=True)
+
         transfer(
             src_fs,
             list(src_paths),
